@@ -59,7 +59,7 @@ Proof. destruct a; reflexivity. Qed.
 Definition lvl := (str * list tnode)%type.
 
 Definition lappend (t : target) (m : mode) (top : bool) (n : tnode) (l : lvl) : option lvl :=
-  if admits t m top n (snd l) then Some (fst l, n :: snd l) else None.
+  if accepts t m top n (snd l) then Some (fst l, n :: snd l) else None.
 
 Definition lflush (t : target) (m : mode) (top : bool) (l : lvl) : option lvl :=
   match fst l with [] => Some l | b => lappend t m top (TText b) ([], snd l) end.
@@ -76,7 +76,7 @@ Definition top_of (s : st) : bool := is_nil (ctx s).
 
 Lemma append_lvl : forall t m n s,
   append t m n s = match lappend t m (top_of s) n (lvl_of s) with Some l => Some (with_lvl s l) | None => None end.
-Proof. intros. unfold append, lappend, top_of, lvl_of, with_lvl. cbn. destruct (admits _ _ _ _ _); reflexivity. Qed.
+Proof. intros. unfold append, lappend, top_of, lvl_of, with_lvl. cbn. destruct (accepts _ _ _ _ _); reflexivity. Qed.
 
 Lemma flush_lvl : forall t m s,
   flush t m s = match lflush t m (top_of s) (lvl_of s) with Some l => Some (with_lvl s l) | None => None end.
@@ -94,11 +94,11 @@ Lemma lflush_fst : forall t m top l l', lflush t m top l = Some l' -> fst l' = [
 Proof.
   intros t m top [b c] l' H. unfold lflush, lappend in H. cbn [fst snd] in H. destruct b.
   - inversion H; reflexivity.
-  - destruct (admits _ _ _ _ _); inversion H; reflexivity.
+  - destruct (accepts _ _ _ _ _); inversion H; reflexivity.
 Qed.
 
 Lemma lflush_inner : forall t m l, lflush t m false l = Some ([], txt (fst l) ++ snd l).
-Proof. intros t m [b c]. unfold lflush, lappend, admits. cbn. destruct b; reflexivity. Qed.
+Proof. intros t m [b c]. unfold lflush, lappend, accepts. cbn. destruct b; reflexivity. Qed.
 
 (* ---- big-step reading of an item at one level ---- *)
 Definition lnode (t : target) (m : mode) (top : bool) (n : tnode) (l : lvl) : option lvl :=
@@ -108,7 +108,7 @@ Fixpoint proc (t : target) (m : mode) (res : resolver) (top : bool) (i : item) (
   match i with
   | IElem n a body =>
       bind (lflush t m top l) (fun l1 =>
-        if admits t m top (TElem n (elem_ns res n) (t_attrs t res a) []) (snd l1) then
+        if accepts t m top (TElem n (elem_ns res n) (t_attrs t res a) []) (snd l1) then
           bind ((fix go (b : list item) (li : lvl) : option lvl :=
                    match b with [] => Some li | x :: r => bind (proc t m res false x li) (go r) end) body ([], []))
                (fun l2 => bind (lflush t m false l2)
@@ -138,14 +138,14 @@ Fixpoint procs (t : target) (m : mode) (res : resolver) (top : bool) (b : list i
 Lemma proc_elem : forall t m res top n a body l,
   proc t m res top (IElem n a body) l =
   bind (lflush t m top l) (fun l1 =>
-    if admits t m top (TElem n (elem_ns res n) (t_attrs t res a) []) (snd l1) then
+    if accepts t m top (TElem n (elem_ns res n) (t_attrs t res a) []) (snd l1) then
       bind (procs t m res false body ([], []))
            (fun l2 => bind (lflush t m false l2)
               (fun l3 => Some ([], TElem n (elem_ns res n) (t_attrs t res a) (rev (snd l3)) :: snd l1)))
     else None).
 Proof.
   intros. cbn [proc]. destruct (lflush t m top l) as [l1|]; [|reflexivity]. cbn [bind].
-  destruct (admits _ _ _ _ _); [|reflexivity].
+  destruct (accepts _ _ _ _ _); [|reflexivity].
   f_equal. generalize (@nil N, @nil tnode). induction body as [|x r IH]; intro p; [reflexivity|].
   cbn [procs]. destruct (proc t m res false x p); [apply IH|reflexivity].
 Qed.
@@ -206,7 +206,7 @@ Proof.
     rewrite Hstart, flush_lvl. destruct (lflush t m (top_of s) (lvl_of s)) as [l1|] eqn:Hf; [|reflexivity].
     cbn [bind]. pose proof (lflush_fst _ _ _ _ _ Hf) as Hb.
     unfold push. cbn [with_lvl ctx cur buf]. fold (top_of s).
-    destruct (admits t m (top_of s) (TElem n (elem_ns res n) (t_attrs t res a) []) (snd l1)); [|reflexivity].
+    destruct (accepts t m (top_of s) (TElem n (elem_ns res n) (t_attrs t res a) []) (snd l1)); [|reflexivity].
     cbn [bind]. rewrite Hb.
     set (s2 := mkSt [] [] ((n, elem_ns res n, t_attrs t res a, snd l1) :: ctx s)).
     (* the body *)
